@@ -225,10 +225,10 @@ Section PerSystem.
     - left. unfold has_succ, succs in S.
       assert (G : forall ls, filter_some (map (step (l, Repaired) s) ls) <> [] ->
                   exists lab s', step (l, Repaired) s lab = Some s').
-      { induction ls as [|a ls IH]; cbn [map filter_some]; intro N; [congruence|].
+      { clear C S. induction ls as [|a ls IH]; cbn [map filter_some]; intro N; [exfalso; apply N; reflexivity|].
         destruct (step (l, Repaired) s a) as [s'|] eqn:E; [exists a, s'; exact E | apply IH; exact N]. }
-      apply (G all_labels). destruct (filter_some (map (step (l, Repaired) s) all_labels)); [discriminate | congruence].
-    - right. unfold final in S. destruct (cp s); try discriminate. destruct (lp s); try discriminate. auto.
+      clear C. apply (G all_labels). destruct (filter_some (map (step (l, Repaired) s) all_labels)); [discriminate S | intro N; discriminate N].
+    - right. clear C. unfold final in S. destruct (cp s); try discriminate S. destruct (lp s); try discriminate S. auto.
   Qed.
 End PerSystem.
 
@@ -247,7 +247,7 @@ Lemma dtor_safe_thread :
 Proof.
   intros C s R H. pose proof (check_sound _ _ C s R) as S. unfold dtor_safe_b in S.
   apply (implb_elim _ _ S) in H. apply andb_true_iff in H. destruct H as [H1 H2].
-  apply negb_true_iff in H1. split; [exact H1|]. unfold is_done in H2. destruct (lp s); try discriminate. reflexivity.
+  apply negb_true_iff in H1. split; [exact H1|]. clear C S. unfold is_done in H2. destruct (lp s); try discriminate H2. reflexivity.
 Qed.
 
 (* the reflective obligations, each closed by vm_compute *)
@@ -285,8 +285,8 @@ Proof.
   assert (C : check (l, Repaired) (fun s => implb (start_ret s && match lp s with LSleep => true | _ => false end)
                                              (match cv s with CvNotified => true | _ => false end)) = true)
     by (destruct l; vm_compute; reflexivity).
-  pose proof (check_sound _ _ C s R) as S. cbv beta in S. rewrite H1, H2 in S. cbn in S.
-  destruct (cv s); try discriminate; reflexivity.
+  pose proof (check_sound _ _ C s R) as S. clear C. cbv beta in S. rewrite H1, H2 in S. cbn [andb implb] in S.
+  destruct (cv s); try discriminate S; reflexivity.
 Qed.
 
 Lemma start_progress_all : forall l s, reachable (l, Repaired) s -> start_ret s = true ->
@@ -338,12 +338,12 @@ Lemma original_other_clauses :
 Proof. vm_compute. auto. Qed.
 
 (* non-vacuity witnesses *)
-Lemma counts : count (THREAD, Repaired) = 387%nat /\ count (TASK, Repaired) = 445%nat /\
-               count (THREAD, Original) = 386%nat /\ count (TASK, Original) = 446%nat.
+Lemma counts : count (THREAD, Repaired) = 401%nat /\ count (TASK, Repaired) = 459%nat /\
+               count (THREAD, Original) = 399%nat /\ count (TASK, Original) = 459%nat.
 Proof. vm_compute. auto. Qed.
 
 Definition sched_stop_returned : list label :=
-  [CallStart; StepC; StepC; StepC; StepC; StepC; StepL; StepL; StepL; StepL; StepL; (* body running *)
+  [CallStart; StepC; StepC; StepC; StepC; StepC; StepC; StepL; StepL; StepL; StepL; StepL; (* body running *)
    CallStop; StepC; StepC; StepC; (* spins *) StepL; StepL; (* body left, inside cleared *) StepC; StepC].
 Lemma nonvac_stop_returned : exists s, reachable (THREAD, Repaired) s /\ stop_ret s = true.
 Proof.
@@ -361,7 +361,7 @@ Proof.
 Qed.
 
 Definition sched_started_asleep : list label :=
-  sched_sleep ++ [CallStart; StepC; StepC; StepC; StepC; StepC].
+  sched_sleep ++ [CallStart; StepC; StepC; StepC; StepC; StepC; StepC].
 Lemma nonvac_start_returned_asleep : exists s, reachable (THREAD, Repaired) s /\ start_ret s = true /\ lp s = LSleep.
 Proof.
   destruct (run_labels (THREAD, Repaired) init sched_started_asleep) as [s|] eqn:E; [|vm_compute in E; discriminate].
@@ -370,7 +370,7 @@ Proof.
 Qed.
 
 Definition sched_dtor : list label :=
-  sched_sleep ++ [CallDestroy; StepC; StepC; StepC; StepC; StepC; StepL; StepL; StepL; StepL; StepL; StepL; StepL; StepC; StepC].
+  sched_sleep ++ [CallDestroy; StepC; StepC; StepC; StepC; StepC; StepL; StepL; StepL; StepL; StepL; StepL; StepC; StepC].
 Lemma nonvac_dtor_returned : exists s, reachable (THREAD, Repaired) s /\ dtor_ret s = true.
 Proof.
   destruct (run_labels (THREAD, Repaired) init sched_dtor) as [s|] eqn:E; [|vm_compute in E; discriminate].
